@@ -141,8 +141,10 @@ Definition push_obj (s : state) (ob : obj) : nat * state :=
 Definition get_pd (s : state) (d : nat) : option (option nat) := pds s d.
 Definition set_pd (s : state) (d : nat) (v : option (option nat)) : state :=
   mkSt (tens s) (fun d' => if Nat.eqb d' d then v else pds s d') (npd s) (objs s).
+(* a dict id no object refers to (and not below the allocation counter) *)
+Definition next_pd (s : state) : nat := fold_left (fun m ob => Nat.max m (S (o_pd ob))) (objs s) (npd s).
 Definition new_pd (s : state) (v : option (option nat)) : nat * state :=
-  (npd s, mkSt (tens s) (fun d' => if Nat.eqb d' (npd s) then v else pds s d') (S (npd s)) (objs s)).
+  (next_pd s, mkSt (tens s) (fun d' => if Nat.eqb d' (next_pd s) then v else pds s d') (S (next_pd s)) (objs s)).
 
 Definition with_obj {A} (s : state) (o : nat) (f : obj -> res A) : res A :=
   match get_obj s o with Some ob => f ob | None => Er IndexErr s end.
